@@ -24,6 +24,7 @@ type lockWorld struct {
 	lockDir string
 	hbFile  string
 	stalls  bool
+	quiet   bool // do not report C01-class violations (the world is used by another property's check)
 
 	mu        sync.Mutex
 	clients   []*lockClient
@@ -121,6 +122,13 @@ func (w *lockWorld) addClient(c int, override bool) *lockClient {
 		lock: filesystem.NewGenericRemoteLockFile(vfs, lockID, "/locks", override)}
 	w.clients = append(w.clients, cl)
 	return cl
+}
+
+func (w *lockWorld) violate(kind, sig, detail string) {
+	if w.quiet {
+		return
+	}
+	w.rc.Res.Violate(kind, sig, detail)
 }
 
 func (w *lockWorld) cancelAll() {
@@ -254,7 +262,7 @@ func (w *lockWorld) onEvent(ev *DiskEvent) {
 		victim := w.holders[ev.Owner]
 		legit := basis == "stale-observation-of-this-generation" && w.stalls
 		if ev.Owner != ev.Client && victim != nil && victim.gen == ev.Gen && w.holdValidLocked(victim, now) && !legit {
-			w.rc.Res.Violate("destructive-release",
+			w.violate("destructive-release",
 				fmt.Sprintf("destructive-remove|by=%s|basis=%s|victim=live-holder", sum, basis),
 				fmt.Sprintf("t=%v client %d (in %s; %s) removed the lock directory generation %d that client %d created and currently holds (heartbeat running)", w.sim.Elapsed(), ev.Client, sum, basis, ev.Gen, ev.Owner))
 		} else if ev.Owner != ev.Client && victim == nil && w.lastMk[ev.Owner] == ev.Gen && !legit {
@@ -337,7 +345,7 @@ func (w *lockWorld) acquired(c int, how string, override bool) {
 	sort.Ints(others)
 	myGen := w.lastMk[c]
 	if rem, ok := w.pendingDestroyed[myGen]; ok && rem.by != c {
-		w.rc.Res.Violate("destructive-release",
+		w.violate("destructive-release",
 			fmt.Sprintf("destructive-remove|by=%s|basis=%s|victim=acquirer-in-progress", rem.summary, rem.basis),
 			fmt.Sprintf("t=%v client %d (in %s; %s) removed at t=%v the lock directory generation %d that client %d had just created and whose acquire (%s) then returned success", w.sim.Elapsed(), rem.by, rem.summary, rem.basis, rem.at.Sub(w.sim.Start), myGen, c, how))
 	}
@@ -352,7 +360,7 @@ func (w *lockWorld) acquired(c int, how string, override bool) {
 		if w.stalls && strings.HasSuffix(cause, "stale-observation-of-this-generation") {
 			continue // legitimate takeover of a lock whose sign of life was seen older than two periods
 		}
-		w.rc.Res.Violate("double-hold",
+		w.violate("double-hold",
 			fmt.Sprintf("double-hold|%s", cause),
 			fmt.Sprintf("t=%v client %d acquired via %s (override=%v) while client %d still holds (acquired t=%v, heartbeat running, release not begun); %s", w.sim.Elapsed(), c, how, override, oc, h.since.Sub(w.sim.Start), cause))
 	}
